@@ -288,6 +288,91 @@ class Grid:
             if len(self.violations) >= 12:
                 break
 
+    def reeval(self):
+        """The SAME expression objects evaluated again after every kind of operand change: a leaf value, a key value, an
+        intermediate container / object replaced as a whole by a new one, the callee (function value, object whose
+        bound method is called) replaced by another callable.  Each change is made directly in the containers or
+        through the manager; after each one every expression must equal what Python computes from the current values."""
+        import xdeps
+        m = xdeps.Manager()
+
+        class Gain:
+            def __init__(self, g):
+                self.g = g
+
+            def apply(self, x, k=0):
+                return self.g * x + k
+
+        class Obj:
+            def __init__(self, p, q):
+                self.p, self.q = p, q
+
+        d = {"a": 2, "b": 3, "n": {"x": 5, "y": 7}, "l": [11, 13], "o": Obj(17, 19), "ki": 1, "ks": "y",
+             "f": (lambda x, k=0: x + k), "amp": Gain(2), "fs": {"g": (lambda x: x * 3)}, "oo": Obj(Obj(1, 2), 0)}
+        r = m.ref(d, "r")
+        exprs = [
+            ("n.x", r["n"]["x"], lambda: d["n"]["x"]),
+            ("n[ks]", r["n"][r["ks"]], lambda: d["n"][d["ks"]]),
+            ("l[ki]", r["l"][r["ki"]], lambda: d["l"][d["ki"]]),
+            ("l[ki-1]", r["l"][r["ki"] - 1], lambda: d["l"][d["ki"] - 1]),
+            ("o.p", r["o"].p, lambda: d["o"].p),
+            ("oo.p.q", r["oo"].p.q, lambda: d["oo"].p.q),
+            ("n.x+o.p*l[0]", r["n"]["x"] + r["o"].p * r["l"][0], lambda: d["n"]["x"] + d["o"].p * d["l"][0]),
+            ("-n.y", -r["n"]["y"], lambda: -d["n"]["y"]),
+            ("abs(o.q)-2", abs(r["o"].q) - 2, lambda: abs(d["o"].q) - 2),
+            ("3*l[1]", 3 * r["l"][1], lambda: 3 * d["l"][1]),
+            ("f(a,k=b)", r["f"](r["a"], k=r["b"]), lambda: d["f"](d["a"], k=d["b"])),
+            ("f(n.x)", r["f"](r["n"]["x"]), lambda: d["f"](d["n"]["x"])),
+            ("amp.apply(a)", r["amp"].apply(r["a"]), lambda: d["amp"].apply(d["a"])),
+            ("amp.apply(a,k=o.p)", r["amp"].apply(r["a"], k=r["o"].p), lambda: d["amp"].apply(d["a"], k=d["o"].p)),
+            ("fs.g(n.x)", r["fs"]["g"](r["n"]["x"]), lambda: d["fs"]["g"](d["n"]["x"])),
+            ("round(n.x/b,ki)", round(r["n"]["x"] / r["b"], r["ki"]), lambda: round(d["n"]["x"] / d["b"], d["ki"])),
+            ("divmod(l[0],b)", divmod(r["l"][0], r["b"]), lambda: divmod(d["l"][0], d["b"])),
+        ]
+        def direct(key, val):
+            return lambda: d.__setitem__(key, val)
+
+        def through(key, val):
+            return lambda: r.__setitem__(key, val)
+
+        changes = [("nothing", lambda: None)]
+        for how, mk in (("direct", direct), ("manager", through)):
+            changes += [
+                (how + " a=5", mk("a", 5)), (how + " b=-2", mk("b", -2)), (how + " ks='x'", mk("ks", "x")), (how + " ki=0", mk("ki", 0)),
+                (how + " n replaced", mk("n", {"x": 23, "y": 29})), (how + " l replaced", mk("l", [31, 37])),
+                (how + " o replaced", mk("o", Obj(41, 43))), (how + " oo replaced", mk("oo", Obj(Obj(47, 53), 0))),
+                (how + " f replaced", mk("f", (lambda x, k=0: x * 10 - k))), (how + " amp replaced", mk("amp", Gain(10))),
+                (how + " fs replaced", mk("fs", {"g": (lambda x: x - 1)})),
+                (how + " a=1.5", mk("a", 1.5)), (how + " ki=1", mk("ki", 1)), (how + " ks='y'", mk("ks", "y")),
+                (how + " n replaced again", mk("n", {"x": -1.5, "y": 0.25})), (how + " f replaced again", mk("f", (lambda x, k=0: k - x))),
+            ]
+        changes += [
+            ("manager n.x=59", lambda: r["n"].__setitem__("x", 59)), ("manager o.p=61", lambda: setattr(r["o"], "p", 61)),
+            ("manager fs.g replaced", lambda: r["fs"].__setitem__("g", (lambda x: x + 100))),
+            ("manager oo.p replaced", lambda: setattr(r["oo"], "p", Obj(67, 71))),
+            ("direct amp.g=4 (in place)", lambda: setattr(d["amp"], "g", 4)),
+            ("manager l[1]=73", lambda: r["l"].__setitem__(1, 73)),
+        ]
+        tasks = []
+        for cname, change in changes:
+            if cname.startswith("manager") and not tasks:
+                # two of the expressions are now also installed as definitions: from here on every change goes through
+                # the manager, which evaluates the very same expression objects and keeps the targets up to date
+                r["t1"] = exprs[10][1]
+                r["t2"] = exprs[6][1]
+                tasks = [("task t1 = f(a,k=b)", r["t1"], lambda: d["f"](d["a"], k=d["b"])),
+                         ("task t2 = n.x+o.p*l[0]", r["t2"], lambda: d["n"]["x"] + d["o"].p * d["l"][0])]
+            if cname.startswith("direct"):
+                tasks_fresh = False
+            else:
+                tasks_fresh = bool(tasks)
+            change()
+            for name, e, py in exprs + (tasks if tasks_fresh else []):
+                got = outcome(lambda: e._get_value())
+                want = outcome(py)
+                self.counters["reevaluations_of_the_same_object"] = self.counters.get("reevaluations_of_the_same_object", 0) + 1
+                self.record(["reeval", name, "after " + cname], got, want, False)
+
     def access(self):
         """Item and attribute access with constant and computed keys, nested."""
         r, d = self.r, self.d
@@ -434,6 +519,7 @@ def run_shard(spec):
         if spec["ops"] == "even":
             g.unary_builtins_calls()
             g.access()
+            g.reeval()
             g.ternary()
         else:
             inplace_grid(counters, digests, violations, samples)
@@ -443,6 +529,7 @@ def run_shard(spec):
         g.binary("all", sample=rng)
         g.unary_builtins_calls()
         g.access()
+        g.reeval()
         g.ternary(sample=rng)
         inplace_grid(counters, digests, violations, samples, sample=rng)
     else:
@@ -458,7 +545,7 @@ TEXT = ("Held on every evaluation observed: the complete single-node grid (all 1
         "the compiled build and a 25% sample in the pure build, plus ~15 000 (quick) / ~1.7 million (thorough) "
         "evaluations of random trees re-evaluated after operand changes. The grid is exhaustive over its finite "
         "scope; arbitrary depth and all numeric inputs are sampled."
-        ' Plus a ternary grid: two nested binary nodes, both groupings, 10 operator pairs x 13^3 operand triples including arrays of different dtype/shape, lists, tuples and strings (operands must stay unmodified).')
+        ' Plus a ternary grid: two nested binary nodes, both groupings, 10 operator pairs x 13^3 operand triples including arrays of different dtype/shape, lists, tuples and strings (operands must stay unmodified). Plus a re-evaluation family: 21 expression objects (accesses, calls through a function-valued location and a bound method, two installed as definitions) re-evaluated after 39 changes (leaf / key values, whole containers, objects and callees replaced, directly and through the manager).')
 NOTE = ("Trusted: Python's own operators as the mirror; canonical by-value-and-type comparison (sign of zero not "
         "compared, counted); caps on integer exponents/shifts.")
 TECHNIQUE = "runtime monitoring: reference-model oracle per expression node (same Python operator on the operand values), exhaustive operator x form x operand grid + random trees re-evaluated after operand changes"
